@@ -2,6 +2,7 @@ import UtlsVerif.Line
 import UtlsVerif.Dict
 import UtlsVerif.Convert
 import UtlsVerif.CH
+import UtlsVerif.CHEdit
 import UtlsVerif.Gen.FieldMaps
 /-! Driver side of C31 (public views of handshake messages convert losslessly).
 
@@ -95,6 +96,35 @@ def firstDiff (a b : List (String × String)) : Option String :=
   | some p => some s!"{p.1}: {p.2} vs {(recGet b p.1).getD "absent"}"
   | none => if a.length ≠ b.length then some s!"leaf-count {a.length} vs {b.length}" else none
 
+/-- the edit the harness applies to the view after the first conversion (harness: `applyCHEdit`). -/
+def editOf : String → Option CH.Edit
+  | "sni" => some (.serverName "edited.example.org".toUTF8.toList)
+  | "suites" => some (.cipherSuites [0x1302, 0x1303])
+  | "sid" => some (.sessionId (List.replicate 7 0x5a))
+  | "alpn" => some (.alpn ["h3".toUTF8.toList, "x".toUTF8.toList])
+  | "ks" => some (.keyShares [(23, [1, 2, 3, 4])])
+  | "vers" => some (.vers 0x0302)
+  | "versions" => some (.supportedVersions [0x0304])
+  | "cookie" => some (.cookie [9, 9, 9])
+  | _ => none
+
+/-- the public leaves an edit assigns, in the harness' rendering. -/
+def editLeaves : CH.Edit → List (String × String)
+  | .serverName n => [("ServerName", rS n)]
+  | .cipherSuites xs => [("CipherSuites", rN xs)]
+  | .sessionId s => [("SessionId", rB s)]
+  | .alpn ps => [("AlpnProtocols", rL (ps.map rS))]
+  | .keyShares ks => [("KeyShares[].Group", rE (ks.map (toString ·.1))), ("KeyShares[].Data", rE (ks.map (rB ·.2)))]
+  | .vers v => [("Vers", toString v)]
+  | .supportedVersions vs => [("SupportedVersions", rN vs)]
+  | .cookie c => [("Cookie", rB c)]
+
+/-- the leaves of a view after an edit: the assigned leaves replaced, all others as they were. -/
+def withEdit (f : List (String × String)) (e : CH.Edit) : List (String × String) :=
+  f.map fun p => match (editLeaves e).find? (·.1 == p.1) with
+    | some q => q
+    | none => p
+
 def knownIds : List Nat :=
   [CH.xSNI, CH.xStatus, CH.xCurves, CH.xPoints, CH.xSigAlgs, CH.xALPN, CH.xSCT, CH.xEMS, CH.xTicket, CH.xPSK,
    CH.xEarly, CH.xVersions, CH.xCookie, CH.xPskModes, CH.xSigAlgsCert, CH.xKeyShare, CH.xQuicTP, CH.xECH, CH.xReneg]
@@ -133,6 +163,26 @@ def chRt (c : Case) : Verdict :=
             match firstDiff f1 f2 with
             | some d => .propFail tag s!"reparse-differs {d}"
             | none =>
+            -- edit-after-unmarshal on the same view: Marshal must write the view's current public fields
+            let ekind := c.output.getD "edit" "none"
+            let re3 := c.output.getD "re3" "?"
+            let f3s := c.output.getD "f3" "?"
+            let editFail : Option String :=
+              match editOf ekind with
+              | none => none
+              | some e =>
+                if re3.startsWith "err:" then some s!"marshal-of-edited-view-fails edit={ekind} {re3}"
+                else if f3s = "reject" then some s!"edited-view-marshals-to-a-rejected-hello edit={ekind}"
+                else
+                  match parseRec f3s with
+                  | none => some "unparsable-f3"
+                  | some f3 =>
+                    match firstDiff (withEdit f2 e) f3 with
+                    | some d => some s!"marshal-ignores-the-views-current-fields edit={ekind} expected-vs-reparsed {d}"
+                    | none => none
+            match editFail with
+            | some msg => .propFail s!"{tag},edit={ekind}" msg
+            | none =>
               -- tie: the model predicts both parses and the re-marshalled bytes
               match firstDiff (renderMsg m) f1 with
               | some d => .diff tag s!"first parse {d}"
@@ -150,7 +200,24 @@ def chRt (c : Case) : Verdict :=
                       | some d => .diff tag s!"second parse {d}"
                       | none =>
                         if CH.marshal (some raw) m ≠ some raw then .diff tag "model: marshal with original"
-                        else .ok tag
+                        else
+                          -- tie for the edit step: the model predicts the bytes and the re-parse
+                          match editOf ekind with
+                          | none => .ok tag
+                          | some e =>
+                            let tagE := s!"{tag},edit={ekind}"
+                            match CH.marshal none (e.apply m), unhex re3 with
+                            | none, _ => .diff tagE "model: marshal of the edited view fails"
+                            | some _, none => .bad "ch_rt: bad re3"
+                            | some b3, some i3 =>
+                              if b3 ≠ i3 then .diff tagE s!"re3={hex b3}"
+                              else
+                                match CH.unmarshal b3, parseRec f3s with
+                                | some m3, some f3 =>
+                                  match firstDiff (renderMsg m3) f3 with
+                                  | some d => .diff tagE s!"third parse {d}"
+                                  | none => if e.ok m then .ok tagE else .diff tagE "edit not well-formed for this view"
+                                | _, _ => .diff tagE "model rejects the marshalled edited view"
     | _, _ => .bad "ch_rt: bad line"
   | o => .bad s!"ch_rt: out={o}"
 
